@@ -438,6 +438,42 @@ def fanout_join_pair_loop(n_limit: int, s0: int, name: str = "fanpair"):
     return {"spec": {"name": name, "nodes": [left, right, join, gate], "bind": {}}, "inputs": inputs, "ref": ref, "template": "fanout_join_pair"}
 
 
+def alternating_writers_loop(n_limit: int, c0: int, name: str = "altw"):
+    """A counter cycle (tick / again) next to a second gate on the same counter whose EXCLUSIVE branches write the same
+    name `v`, taking turns by parity, and which finally routes to an exit node:
+    tick(n)->n = n+1;  again(n) -> tick | END;  pick(n) -> left | right | fin;  left(n)->v = n+100;  right(n)->v = n+200;
+    fin(n)->result.  The writer that ran FIRST is not, in general, the one that wrote LAST (n0 odd: left, right, left)."""
+    table = [("right" if j % 2 == 0 else "left") for j in range(max(n_limit, 1))] + ["fin"] * 4
+    nodes = [
+        {"k": "fn", "name": "tick", "params": [{"n": "n"}], "outs": ["n"], "beh": ["inc", "n"]},
+        {"k": "route", "name": "again", "params": [{"n": "n"}], "targets": ["tick", "END"], "cond": ["lt", "n", n_limit], "then": "tick", "else": "END", "open": False},
+        {"k": "route", "name": "pick", "params": [{"n": "n"}], "targets": ["left", "right", "fin"], "table": table[: max(n_limit, 1)] + ["fin"], "key": "n", "open": False},
+        {"k": "fn", "name": "left", "params": [{"n": "n"}], "outs": ["v"], "beh": ["addc", "n", 100]},
+        {"k": "fn", "name": "right", "params": [{"n": "n"}], "outs": ["v"], "beh": ["addc", "n", 200]},
+        {"k": "fn", "name": "fin", "params": [{"n": "n"}], "outs": ["result"], "beh": ["mark", "n", "done"]},
+    ]
+    if n_limit <= 0:
+        nodes[2]["table"] = ["fin"]
+    c0 = min(c0, max(n_limit, 0))  # the table is indexed by the counter itself: start inside it
+    inputs = {"n": c0}
+    trace = []
+    n = c0
+    while True:
+        trace.append(("again", {}))
+        trace.append(("pick", {}))
+        if n >= n_limit:
+            break
+        w = "right" if n % 2 == 0 else "left"
+        trace.append((w, {"v": n + (200 if w == "right" else 100)}))
+        n += 1
+        trace.append(("tick", {"n": n}))
+    trace.append(("fin", {"result": ("done", n)}))
+    vals = _fold(inputs, trace)
+    vals.setdefault("n", c0)
+    ref = {"trace": None, "seq_trace": trace, "values": vals, "counts": _counts(trace), "singleton_steps": False, "steps": len(trace)}
+    return {"spec": {"name": name, "nodes": nodes, "bind": {}}, "inputs": inputs, "ref": ref, "template": "alternating_writers"}
+
+
 def nested_loop(n_limit: int, c0: int, body_len: int = 1, gate: str = "route", depth: int = 1):
     """T7: the counter loop wrapped as a nested graph inside a DAG: pre -> [loop] -> post."""
     inner = counter_loop(n_limit, c0 + 1, body_len, gate, name="inner")
@@ -493,6 +529,8 @@ def systematic_templates(N: int) -> list:
         early_read_signal_loop(N + 1, 1, "ifelse"),
         fanout_join_pair_loop(5 * N, N % 2),
         fanout_join_loop(4 * N, 0, "empty", True),
+        alternating_writers_loop(N + 2, 1),
+        alternating_writers_loop(N + 1, 0),
     ]
 
 
@@ -507,6 +545,8 @@ def gen_loop(rng):
         return interval_loop(rng.randint(2, 12), rng.randint(0, 4))
     if rng.random() < 0.08:
         return fanout_join_loop(rng.randint(0, 30), rng.randint(0, 3), "empty", rng.random() < 0.4)
+    if rng.random() < 0.08:
+        return alternating_writers_loop(rng.randint(0, 7), rng.randint(0, 2))
     if t == "lagged":
         if rng.random() < 0.4:
             return early_read_signal_loop(n, c0, rng.choice(["route", "ifelse"]))
